@@ -192,62 +192,104 @@ func rulesC07(p *Prog, r *Report) {
 	// R07.5 allowed rejection reasons ---------------------------------------------------------
 	r.Rule("R07.5", "ValidateMsgCancelOrder rejects only for: app/order not found, signer mismatch, already cancelled, same batch", 4)
 	{
-		fn := p.MustFunc("x/liquidity/keeper.Keeper.ValidateMsgCancelOrder")
-		r.FuncsSeen[fname(fn)] = true
+		// the cancel path: the MsgCancelOrder handler and the liquidity functions it runs before
+		// the settlement (FinishOrder); found from the handler so that inlining or renaming the
+		// validation helper does not lose the rule
+		var root *ssa.Function
+		for _, e := range p.MsgHandlers() {
+			if moduleOf(e.Fn) == "liquidity" && e.Fn.Name() == "CancelOrder" {
+				root = e.Fn
+			}
+		}
+		if root == nil {
+			analysisError("anchor unresolved: the liquidity MsgCancelOrder handler")
+		}
+		var cancelFns []*ssa.Function
+		seenFn := map[*ssa.Function]bool{}
+		var collect func(f *ssa.Function, d int)
+		collect = func(f *ssa.Function, d int) {
+			if seenFn[f] || d > 3 {
+				return
+			}
+			seenFn[f] = true
+			cancelFns = append(cancelFns, f)
+			for _, c := range calls(f) {
+				h := c.Common().StaticCallee()
+				if h == nil {
+					continue
+				}
+				h = p.unwrap(h)
+				if h == nil || !isComdexFn(h) || len(h.Blocks) == 0 || moduleOf(h) != "liquidity" || !strings.HasSuffix(fnPkgPath(h), "/keeper") || errResultIndex(h) < 0 {
+					continue
+				}
+				if strings.HasPrefix(h.Name(), "Finish") || strings.HasPrefix(h.Name(), "Get") || strings.HasPrefix(h.Name(), "Set") {
+					continue
+				}
+				collect(h, d+1)
+			}
+		}
+		collect(root, 0)
 		n := 0
-		for _, b := range fn.Blocks {
-			ifi, ok := b.Instrs[len(b.Instrs)-1].(*ssa.If)
-			if !ok {
-				continue
-			}
-			// does one edge lead straight to an error exit?
-			leadsToErr := false
-			for _, s := range b.Succs {
-				if len(s.Instrs) > 0 {
-					if rt, ok := s.Instrs[len(s.Instrs)-1].(*ssa.Return); ok && exitKind(rt) == ExitError && len(s.Preds) == 1 {
-						leadsToErr = true
+		for _, fn := range cancelFns {
+			r.FuncsSeen[fname(fn)] = true
+			for _, b := range fn.Blocks {
+				ifi, ok := b.Instrs[len(b.Instrs)-1].(*ssa.If)
+				if !ok {
+					continue
+				}
+				// does one edge lead straight to an error exit?
+				leadsToErr := false
+				for _, s := range b.Succs {
+					if len(s.Instrs) > 0 {
+						if rt, ok := s.Instrs[len(s.Instrs)-1].(*ssa.Return); ok && exitKind(rt) == ExitError && len(s.Preds) == 1 {
+							leadsToErr = true
+						}
 					}
 				}
-			}
-			if !leadsToErr {
-				continue
-			}
-			n++
-			r.Instance("R07.5")
-			construct := fmt.Sprintf("%s rejection #%d", fname(fn), n)
-			a := p.Atom(ifi.Cond)
-			reason := ""
-			switch {
-			case !a.IsCmp && len(a.Origins) > 0 && func() bool {
-				for _, o := range a.Origins {
-					if !(o.Kind == "call" && o.Index == 1 && p.callIs(o.Call, "GetApp", "GetOrder")) {
-						return false
-					}
+				if !leadsToErr {
+					continue
 				}
-				return true
-			}():
-				reason = "app / order not found"
-			case a.IsCmp && (a.Op == "==" || a.Op == "!=") && a.X != nil && a.Y != nil:
-				fx, fy := "", ""
-				if _, f, _, ok := fieldRead(a.X); ok {
-					fx = f
-				}
-				if _, f, _, ok := fieldRead(a.Y); ok {
-					fy = f
+				n++
+				r.Instance("R07.5")
+				construct := fmt.Sprintf("%s rejection #%d", fname(fn), n)
+				a := p.Atom(ifi.Cond)
+				reason := ""
+				if e, _, isNil := nilCheck(ifi.Cond); isNil && isErrorType(e.Type()) && len(errorCallsOf(e, 0)) > 0 {
+					reason = "propagates the failure of a step (validation helper, settlement)"
 				}
 				switch {
-				case fx == "Orderer" && fy == "Orderer":
-					reason = "signer is not the stored orderer"
-				case (fx == "Status" && isConst(a.Y)) || (fy == "Status" && isConst(a.X)):
-					reason = "already cancelled"
-				case (fx == "BatchId" && fy == "CurrentBatchId") || (fy == "BatchId" && fx == "CurrentBatchId"):
-					reason = "placed in the current batch"
+				case reason != "":
+				case !a.IsCmp && len(a.Origins) > 0 && func() bool {
+					for _, o := range a.Origins {
+						if !(o.Kind == "call" && o.Index == 1 && p.callIs(o.Call, "GetApp", "GetOrder")) {
+							return false
+						}
+					}
+					return true
+				}():
+					reason = "app / order not found"
+				case a.IsCmp && (a.Op == "==" || a.Op == "!=") && a.X != nil && a.Y != nil:
+					fx, fy := "", ""
+					if _, f, _, ok := fieldRead(a.X); ok {
+						fx = f
+					}
+					if _, f, _, ok := fieldRead(a.Y); ok {
+						fy = f
+					}
+					switch {
+					case fx == "Orderer" && fy == "Orderer":
+						reason = "signer is not the stored orderer"
+					case (fx == "Status" && isConst(a.Y)) || (fy == "Status" && isConst(a.X)):
+						reason = "already cancelled"
+					case (fx == "BatchId" && fy == "CurrentBatchId") || (fy == "BatchId" && fx == "CurrentBatchId"):
+						reason = "placed in the current batch"
+					}
 				}
-			}
-			if reason != "" {
-				r.OK("R07.5", construct, reason, p.instrPos(ifi))
-			} else {
-				r.Fail("R07.5", construct, "ValidateMsgCancelOrder rejects for a reason the property does not allow: some order outside its placement batch cannot be cancelled by its owner", p.instrPos(ifi), nil)
+				if reason != "" {
+					r.OK("R07.5", construct, reason, p.instrPos(ifi))
+				} else {
+					r.Fail("R07.5", construct, "the cancel path rejects for a reason the property does not allow: some order outside its placement batch cannot be cancelled by its owner", p.instrPos(ifi), nil)
+				}
 			}
 		}
 	}
